@@ -438,11 +438,13 @@ def check_property(pid, tier, seed, t0):
     build_fail = C.build_all(report)
     audit = C.audit_props(pid, thorough=(tier == "thorough")) if "lake" not in build_fail else \
         {"obligations": 0, "discharged": 0, "theorems": [], "errors": ["lake build failed"], "file": ""}
-    proof_broken = list(audit["errors"])
+    proof_broken = []
+    if "translator" in build_fail:
+        # first: what the translator could not read is usually the cause of what follows
+        proof_broken.append("translator: " + " | ".join(l for l in build_fail["translator"].splitlines() if "translator error" in l)[:1500] or build_fail["translator"][-1500:])
+    proof_broken += list(audit["errors"])
     if "lake" in build_fail:
         proof_broken.append("lake build: " + build_fail["lake"][-1500:])
-    if "translator" in build_fail:
-        proof_broken.append("translator: " + build_fail["translator"][-1500:])
     for k, v in build_fail.items():
         # the harness (built against /repo's working tree) or a generator no longer builds: the
         # correspondence cannot be run, so the property is no longer shown to hold
